@@ -2,7 +2,9 @@
 integer units) for all reward histories up to 4 and generates: exact histories with the expected state, palette histories (indices
 into a float table from 0 and a denormal to 1e9), fitness histories for the variation criterion with the model verdict per generation,
 generation counters for the progress estimate, and selector configurations.  harness bin `adaptive` drives the real SlotMachine,
-MinVariation, MaxGeneration and DynamicSelective; JudgeAdaptive.tla decides."""
+MinVariation, MaxGeneration and DynamicSelective; JudgeAdaptive.tla decides.  The numeric helpers underneath (median estimator, statistics,
+relative distance, weighted / uniform / arg-max sampling, sampling iterators, noise) go through math_part: Remedian.tla (model-checked),
+GenMath.tla, harness bin `mathutil`, JudgeMath.tla."""
 import collections, copy, json, os, time
 from vlib import common
 from vlib.common import ToolError
@@ -10,6 +12,97 @@ from vlib.common import ToolError
 DEFAULT = {'n': 0, 'alpha2K': 0, 'b24K': 0, 'sK': 0, 'v24K': 0, 'finite': True, 'shapePositive': True, 'ratePositive': True, 'varianceOk': True, 'meanInHull': True, 'countOk': True,
            'sampleOk': True, 'samplerArgsOk': True, 'fired': [], 'estimates': [], 'picksInRange': True, 'oneCallPerSearch': True, 'picks': 0, 'rewards': 0, 'rewardsFinite': True, 'rewardsInRange': True}
 CASE_DEFAULT = {'exp': {'n': 0, 'alpha2': 0, 'B24': 0, 'S': 0}, 'tie': [], 'gens': [], 'limit': 1, 'steps': 0}
+
+
+def math_part(pid, tier, d, verdict):
+    """numeric helpers behind the selector and the termination criteria: spec/Remedian.tla is model-checked, GenMath.tla generates
+    cases, harness bin `mathutil` runs the real helpers, JudgeMath.tla decides (definitions: MathUtil.tla)."""
+    mc = common.tlc('Remedian', cfg='MC_Remedian_11.cfg' if tier == 'thorough' else 'MC_Remedian.cfg', workers=4, name=pid + '-mcr', timeout=1800, xmx='8g')
+    if mc.rc != 0 or mc.invariant_violated or not mc.distinct:
+        raise ToolError('Remedian model violates its own properties: see work/tlc-%s-mcr.log' % pid)
+    fc, fr = os.path.join(d, 'math-cases.ndjson'), os.path.join(d, 'math-results.ndjson')
+    gen = common.tlc('GenMath', cfg='GenAlgo.cfg', env={'OUTFILE': fc, 'TIER': tier, 'SEED': common.seed()}, workers=1, name=pid + '-genm', timeout=3000, xmx='8g')
+    if gen.rc != 0 or 'GENERATED' not in gen.out:
+        raise ToolError('GenMath failed: see work/tlc-%s-genm.log' % pid)
+    cases = common.read_ndjson(fc)
+    common.run_bin('mathutil', ['--in', fc, '--out', fr], timeout=3000, log=os.path.join(d, 'math-harness.log'), package='vh-roso')
+    res = common.read_ndjson(fr)
+    if len(res) != len(cases):
+        raise ToolError('mathutil answered %d of %d' % (len(res), len(cases)))
+    recs = [{'id': '%s%d' % (c['case']['kind'], c['c']), 'case': c['case'], 'act': {k: v for k, v in r.items() if k != 'c'}} for c, r in zip(cases, res)]
+    cans = []
+    def first(kind, pred=lambda r: True):
+        return next(r for r in recs if r['case']['kind'] == kind and not r['act']['panic'] and pred(r))
+    def can(rec, expect, fn):
+        c = copy.deepcopy(rec); fn(c['act']); cans.append((c, expect))
+    b = first('remedian', lambda r: r['case']['base'] == 3 and r['case']['exp'] >= 2 and len(r['case']['xs']) >= 9 and len(set(r['case']['xs'][:9])) >= 4)
+    can(b, 'NoPanic', lambda a: a.update(panic='boom'))
+    can(b, 'RemedianRefusesOnlyWhenFull', lambda a: a['added'].__setitem__(0, False))
+    can(b, 'RemedianMedianObserved', lambda a: a['medians'].__setitem__(2, [99]))
+    can(b, 'RemedianMedianObserved', lambda a: a['medians'].__setitem__(2, []))
+    can(b, 'RemedianRankAtPowers', lambda a: a['medians'].__setitem__(8, [min(b['case']['xs'][:9])]))
+    can(b, 'RemedianAsModel', lambda a: a['medians'].__setitem__(4, [max(b['case']['xs'][:5]) if a['medians'][4] != [max(b['case']['xs'][:5])] else min(b['case']['xs'][:5])]))
+    st = first('stats', lambda r: len(set(r['case']['xs'])) >= 3)
+    can(st, 'StatsMean', lambda a: a.update(mean4=a['mean4'] + 3))
+    can(st, 'StatsVariance', lambda a: a.update(var4=a['var4'] + 3))
+    can(st, 'StatsDeviation', lambda a: a.update(sd3=a['sd3'] + 3))
+    can(st, 'StatsCv', lambda a: a.update(cv2=a['cv2'] + 3, cvSafe2=a['cvSafe2'] + 3))
+    rd = first('reldist', lambda r: r['act']['d3'] > 0)
+    can(rd, 'RelDistAsDefined', lambda a: a.update(d3=a['d3'] + 3, rev3=a['rev3'] + 3))
+    can(rd, 'RelDistSymmetric', lambda a: a.update(rev3=a['rev3'] + 1))
+    w = first('weighted', lambda r: 0 in r['case']['weights'] and len(r['case']['weights']) >= 2)
+    zero = w['case']['weights'].index(0)
+    can(w, 'WeightedPicksPositiveWeight', lambda a: a['draws'].__setitem__(5, zero))
+    pos = next(i for i, x in enumerate(w['case']['weights']) if x > 0)
+    other = next((i for i, x in enumerate(w['case']['weights']) if x > 0 and i != pos), pos)
+    w2 = first('weighted', lambda r: sum(1 for x in r['case']['weights'] if x > 0) >= 2)
+    keep = next(i for i, x in enumerate(w2['case']['weights']) if x > 0)
+    can(w2, 'WeightedReachesEveryPositiveWeight', lambda a: a.update(draws=[keep] * len(a['draws'])))
+    u = first('uniform', lambda r: r['case']['max'] > r['case']['min'])
+    can(u, 'UniformIntInClosedRange', lambda a: a.update(draws=[x if x != u['case']['max'] else u['case']['min'] for x in a['draws']]))
+    can(u, 'UniformIntInClosedRange', lambda a: a['draws'].__setitem__(0, u['case']['max'] + 1))
+    can(u, 'UniformRealInRange', lambda a: a.update(realsInside=False))
+    h = first('hit', lambda r: r['case']['p10'] == 0)
+    can(h, 'HitRespectsCertainty', lambda a: a.update(hits=1))
+    am = first('argmax', lambda r: len(r['case']['values']) >= 3 and len(set(r['case']['values'])) >= 2 and r['case']['values'].count(max(r['case']['values'])) >= 2)
+    worst = am['case']['values'].index(min(am['case']['values']))
+    can(am, 'ArgmaxPicksMaximum', lambda a: a['draws'].__setitem__(3, worst))
+    can(am, 'ArgmaxReachesEveryMaximum', lambda a: a.update(draws=[a['draws'][0]] * len(a['draws'])))
+    sm = first('sampling', lambda r: r['case']['n'] >= 5 and 2 <= r['case']['amount'] <= 4)
+    can(sm, 'SamplingIsSubsequenceOfRightSize', lambda a: a['runs'].__setitem__(0, a['runs'][0][:-1]))
+    can(sm, 'SamplingIsSubsequenceOfRightSize', lambda a: a['runs'].__setitem__(0, list(reversed(a['runs'][0]))))
+    rg = first('range', lambda r: r['case']['n'] >= 6 and r['case']['size'] == 3)
+    can(rg, 'RangeSamplingIsAlignedBlock', lambda a: a['runs'].__setitem__(0, [1, 2, 3]))
+    se = first('search', lambda r: len(r['act']['evaluated']) >= 3)
+    low = min(se['act']['evaluated'], key=lambda i: se['case']['data'][i])
+    can(se, 'SearchReturnsBestProbed', lambda a: a.update(found=low) if se['case']['data'][low] < se['case']['data'][a['found']] else a.update(found=-1))
+    can(se, 'SearchEvaluatesOnce', lambda a: a['evaluated'].append(a['evaluated'][0]))
+    no = first('noise', lambda r: r['case']['p10'] == 0 and r['case']['value'] != 0)
+    can(no, 'NoiseOffKeepsValue', lambda a: a['draws'].__setitem__(0, a['draws'][0] + 5))
+    n1 = first('noise', lambda r: r['case']['p10'] == 10 and r['case']['value'] == 7 and r['case']['addition'])
+    can(n1, 'NoiseWithinRange', lambda a: a['draws'].__setitem__(0, 7000 * 4))
+    fj = os.path.join(d, 'math-judge.ndjson')
+    common.write_ndjson(fj, recs + [c[0] for c in cans])
+    jr = common.tlc('JudgeMath', env={'RECS': fj}, workers=1, name=pid + '-judgem', timeout=6000, xmx='8g')
+    if jr.distinct != len(recs) + len(cans):
+        raise ToolError('math judge walked %d of %d' % (jr.distinct, len(recs) + len(cans)))
+    got = collections.defaultdict(set)
+    for name, idx, _ in jr.fails:
+        got[int(idx)].add(name)
+    for k, (c, expect) in enumerate(cans):
+        if expect not in got[len(recs) + k + 1]:
+            raise ToolError('math judge vacuity: %s not rejected' % expect)
+    differs = 0
+    for name, idx, rid in jr.fails:
+        i = int(idx)
+        if i > len(recs):
+            continue
+        if name == 'RemedianAsModel':
+            differs += 1        # conformance with the transcription of the estimator; the verdicts are the contracts above it
+            continue
+        verdict.add('C18/%s/%s' % (name, recs[i - 1]['case']['kind']), 'case %s: %s -> %s' % (rid, json.dumps(cases[i - 1]['case'])[:250], json.dumps(res[i - 1])[:350]), {'case': cases[i - 1]['case'], 'observed': res[i - 1]})
+    return {'model_states_remedian': mc.distinct, 'cases_by_kind': dict(collections.Counter(r['case']['kind'] for r in recs)), 'judged': len(recs), 'judge_states': jr.distinct,
+            'remedian_estimates_differing_from_model': differs, 'canaries_rejected': len(cans)}
 
 
 def run(pid, tier):
@@ -82,16 +175,17 @@ def run(pid, tier):
             differs += 1        # conformance with the exact model of the posterior: reported, not a verdict (the statement asks for a valid state)
             continue
         verdict.add('C18/%s/%s' % (name, recs[i - 1]['kind']), 'case %s: %s -> %s' % (rid, json.dumps(cases[i - 1]['case'])[:250], json.dumps(r)[:350]), {'case': cases[i - 1]['case'], 'observed': r})
+    math = math_part(pid, tier, d, verdict)
     rc = verdict.finish()
     kinds = collections.Counter(r['kind'] for r in recs)
     dyn = [r for r in res if r['kind'] == 'dyn' and not r.get('panic')]
-    cov = {'states': mc.distinct + jr.distinct, 'transitions': mc.generated + jr.generated, 'traces_validated_against_impl': len(recs), 'evaluations': len(recs),
+    cov = {'states': mc.distinct + jr.distinct + math['model_states_remedian'] + math['judge_states'], 'transitions': mc.generated + jr.generated, 'traces_validated_against_impl': len(recs) + math['judged'], 'evaluations': len(recs) + math['judged'],
            'distinct_nontrivial': kinds['slot-exact'] + kinds['slot-palette'] + sum(1 for r in recs if r['kind'] == 'minvar' and any(r['case']['exp'])),
            'rule': 'one evaluation = one generated case run on the real object (a reward history on SlotMachine, a fitness history on MinVariation, a set of generation counters on MaxGeneration, a run of 40-1000 searches of DynamicSelective); non-trivial = reward histories and variation histories in which the criterion fires at least once',
            'samples': [{'case': cases[5]['case'], 'observed': res[5]}], 'exhaustive': False, 'cases_by_kind': dict(kinds), 'model_states': mc.distinct,
            'variation_windows_on_an_exact_tie_skipped': sum(sum(1 for t in r['case']['tie'] if t) for r in recs if r['kind'] == 'minvar'),
            'selector_searches': sum(r['picks'] for r in dyn), 'selector_max_reward': max([r['maxRewardK'] for r in dyn] or [0]) / 1000.0,
-           'slot_states_differing_from_the_exact_model': differs, 'canaries_rejected': len(cans), 'known_finding_hits': {k: len(v) for k, v in verdict.known_hits.items()}}
+           'slot_states_differing_from_the_exact_model': differs, 'canaries_rejected': len(cans) + math['canaries_rejected'], 'numeric_helpers': math, 'known_finding_hits': {k: len(v) for k, v in verdict.known_hits.items()}}
     common.write_evidence(pid, tier, 'model_checking', cov, time.time() - t0, len(verdict.violations),
                           ['exact stratum: integer rewards {0,1,2,5}, up to 4 updates (the integer model is exact only there); palette stratum: the invariants are evaluated by the harness in f64 (TLC reads no floating point), hull tolerance 1e-12 * max(1, largest reward) (the running mean starts from the prior mean 1, so its rounding error is absolute at that scale); '
                            'variation criterion: sample windows only (the period variant depends on wall-clock time), windows whose verdict is an exact tie with the threshold are not compared; reward range: 0 .. 27 for two objectives (derived from the constants in dynamic_selective.rs)'])
